@@ -285,6 +285,9 @@ func generate(thorough bool, sel func(int) bool, count bool) *generator {
 	}
 	for _, r := range l1ranges {
 		for _, q := range l1queries {
+			if !thorough && r == 60 && q.unwrapLabel() != "" {
+				continue // quick: unwrap never takes the shortcut, 1 m adds nothing over 15 s there (kept in thorough)
+			}
 			for _, w := range windows {
 				qq := *q
 				qq.RangeS = r
